@@ -139,6 +139,26 @@ NullRat == <<Null, 1>>
 
 DefMean(s) == IF DefCount(s) = 0 THEN NullRat ELSE Rat(DefSum(s), DefCount(s))
 
+(* Sample variance (C16).  The library uses the one-pass form                *)
+(*   (Q - S*S/n) / (n - ddof),  S = sum, Q = sum of squares, n = count,       *)
+(* the property states the two-pass definition sum((x - mean)^2)/(n - ddof). *)
+(* Over the rationals both are (n*Q - S*S) / (n*(n - ddof)); GBStats checks  *)
+(* the integer identity behind this for every sequence in its domain.        *)
+DefVarRat(s, ddof) ==
+  LET n == DefCount(s)
+      S == DefSum(s)
+      Q == DefSumSq(s)
+  IN  IF n - ddof <= 0 THEN NullRat ELSE Rat(n * Q - S * S, n * (n - ddof))
+(* n^2 * sum((x - mean)^2) = sum((n*x - S)^2), an integer                    *)
+RECURSIVE SumDevSq(_, _, _, _)
+SumDevSq(s, I, n, S) == IF I = {} THEN 0
+                        ELSE LET i == CHOOSE j \in I : TRUE
+                             IN  (n * s[i] - S) * (n * s[i] - S) + SumDevSq(s, I \ {i}, n, S)
+TwoPassVarRat(s, ddof) ==
+  LET n == DefCount(s)
+      S == DefSum(s)
+  IN  IF n - ddof <= 0 THEN NullRat ELSE Rat(SumDevSq(s, NonNullIdx(s), n, S), n * n * (n - ddof))
+
 (* Fold a sequence through Step: the single-pass mechanism as an operator.   *)
 RECURSIVE FoldStep(_, _, _)
 FoldStep(k, p, s) == IF s = <<>> THEN p ELSE FoldStep(k, Step(k, p, Head(s)), Tail(s))
